@@ -45,7 +45,7 @@ def theorems_of(prop: str):
     return re.findall(r'^\s*theorem\s+([A-Za-z0-9_\.]+)', src, flags=re.M)
 
 
-def prepare_build(prop: str, scratch: Path):
+def prepare_build(prop: str, scratch: Path, tier: str = 'quick'):
     """translator + lake build + audits; serialised across concurrent checks by a lock"""
     info = dict(translate=None, build_ok=False, dmodel_ok=False, props_ok=False, axioms={}, audit_ok=False,
                 forbidden=[], log='')
@@ -86,6 +86,15 @@ def prepare_build(prop: str, scratch: Path):
             info['bad_axioms'] = bad
             info['audit_ok'] = rc3 == 0 and not bad and len(info['axioms']) == len(thms) and not info['forbidden']
             if rc3 != 0: info['log'] += out3[-2000:]
+            if tier == 'thorough' and info['audit_ok'] and shutil.which('leanchecker'):
+                # independent re-check: replay the compiled module AND everything it imports through the kernel again
+                try:
+                    rc4, out4 = sh(['lake', 'env', 'leanchecker', '--fresh', f'Duckling.Props.{prop}'], cwd=LEAN, timeout=3000)
+                    info['leanchecker'] = 'ok (--fresh: module and all imports replayed)' if rc4 == 0 else 'FAILED: ' + out4[-1500:]
+                    if rc4 != 0:
+                        info['audit_ok'] = False; info['log'] += out4[-2000:]
+                except subprocess.TimeoutExpired:
+                    info['leanchecker'] = 'not finished within 50 minutes (not counted)'
     finally:
         fcntl.flock(lock, fcntl.LOCK_UN)
         lock.close()
@@ -170,7 +179,7 @@ def main(argv):
 def run(prop, tier, seed, replay, scratch, t0):
     import impl, corr, gen
     mod = importlib.import_module(f'props.{prop}')
-    build = prepare_build(prop, scratch)
+    build = prepare_build(prop, scratch, tier)
     known = load_known(prop)
     fields = getattr(mod, 'FIELDS', corr.ALL_FIELDS)
 
@@ -282,7 +291,7 @@ def run(prop, tier, seed, replay, scratch, t0):
             checker_cmd=f'cd lean && lake build Duckling.Props.{prop} && lake env lean <#print axioms of every theorem>',
             trusted_base=TRUSTED_BASE + getattr(mod, 'TRUSTED_EXTRA', []),
             theorems=thms, axioms=build['axioms'],
-            translator=build['translate'], build_ok=build['build_ok'], audit_ok=build['audit_ok'],
+            translator=build['translate'], build_ok=build['build_ok'], audit_ok=build['audit_ok'], leanchecker=build.get('leanchecker', 'not run (thorough tier only)'),
             evaluations=len(cases) + widened, distinct_nontrivial=len(nontrivial), rule=rule,
             samples=samples, out_of_model_skipped=n_oom, impl_timeouts=n_hang,
             disagreements=len(diffs), oracle_failures=len(failures), known_findings_reproduced=sorted(known_hit),
